@@ -11,6 +11,8 @@ Expected(e) ==
   CASE e.kind = "filter" -> TextRows(Project(Filter(e.in, e.cond), e.proj))
     [] e.kind = "join"   -> TextRows(Project(Filter(JoinRows(e.jk, e.L, e.R, e.cond, e.wl, e.wr), e.where), e.proj))
     [] e.kind = "using"  -> TextRows(UsingJoin(e.jk, e.L, e.R, e.ul, e.ur, e.wl, e.wr))
+    \* SELECT proj2 FROM (SELECT proj FROM t WHERE cond) s WHERE cond2   (also as WITH s AS (...))
+    [] e.kind = "nested" -> TextRows(Project(Filter(Project(Filter(e.in, e.cond), e.proj), e.cond2), e.proj2))
 
 SetOpRows(e) ==
   CASE e.op = "union" /\ ~e.all     -> UnionD(e.A, e.B)
@@ -63,7 +65,7 @@ AnalyticOK(e) ==
 
 Accept(e) ==
   CASE e.kind = "sort"     -> WindowOK(e.in, e.res, e.keys, e.m, e.lim, e.ties, e.idc)
-    [] e.kind = "filter"   -> TextRows(e.res) = Expected(e)
+    [] e.kind \in {"filter", "nested"} -> TextRows(e.res) = Expected(e)
     [] e.kind \in {"join", "using"} -> IF e.ordered THEN TextRows(e.res) = Expected(e) ELSE SameBag(TextRows(e.res), Expected(e))
     [] e.kind = "distinct" -> /\ BucketsOK(e.keys, e.res)
                               /\ Decided(e.keys) => TextRows(e.res) = TextRows(FirstOfBuckets(e.keys))
